@@ -630,7 +630,7 @@ theorem loaded_invariant (p : List Expr) (s0 : St) (hok : Bal.okLs p = true) (hl
   obtain ⟨hw1, he1, d1, l1, a1, c1, p1, _, hcode, hids, as, τ, hfrag, h0, _⟩ :=
     RunInv.load_ok (isFnScope initSt) p code t wf_initSt hok hload
   have hfo : fnOf s1 mainFn = fnOf initSt mainFn := he1.fnOf mainFn (by decide)
-  obtain ⟨b, a0, _, hA, hh⟩ := RunInv.loaded_running (s1 := s1) code as initSt.loops.length hw1 (by rw [d1]; rfl) (by rw [a1]; rfl)
+  obtain ⟨b, a0, _, hA, _, hh⟩ := RunInv.loaded_running (s1 := s1) code as initSt.loops.length hw1 (by rw [d1]; rfl) (by rw [a1]; rfl)
     (by rw [hfo]; rfl) (by rw [hfo]; exact Bal.AllOK.nil _) (by rw [hfo]; exact Bal.idsIn_nil _ _) hids he1.loops_len
     (by rw [p1, hfo]; rfl) hcode hfrag h0
   intro E hreach
